@@ -56,6 +56,13 @@ const ipf = "pkg/util/ipfilter"
 // decided on the value the prefix is attached to" — the defect e0a03b3 repaired was the mirror
 // image (family from the text, mask on the parsed address) and is reported by the same obligation.
 // The unification done correctly (length appended to ip.String(), or decided on the text) is silent.
+//
+// Third set of refactorings: what Allow returns by default is followed per path (a named result is
+// assigned !blockByDefault first and a decided verdict later; bare returns), the "assigned once"
+// test is gone — a reassigned default shows in the decision table; a helper called in operand
+// position (Insert(NewBasicRangerEntry(hostNet(ip)))) is analysed on its own with the same hooks and
+// its exits carried over (masks: any exit; the two views of the entry: all exits must agree, else
+// undecided).
 func c05(c *core.Ctx) string {
 	c.Rule("R-C05-1", "decision table of IPFilter.Allow (exhaustive over parse ok / lookup errors / allowed / blocked): deny ⇔ (blocked ∧ ¬allowed) ∨ ((allowed ⇔ blocked) ∧ blockByDefault), default result on any parse/lookup error; IPFilters.Allow is the conjunction of its filters")
 	c.Rule("R-C05-2", "checks dominate dispatch: every uncached success return of the search has passed the server-, rule- and path-level filters; a failed test returns the 403 route immediately; a cached success route is returned only after its filter chain allowed the client (or the chain is nil)")
@@ -88,51 +95,53 @@ func c05Allow(c *core.Ctx) {
 		return
 	}
 	cons := fname(ipf, "IPFilter", "Allow")
-	// defaultResult := !f.spec.BlockByDefault
-	var defObj types.Object
-	defOK := false
-	ndef := 0
-	ast.Inspect(f.Body, func(n ast.Node) bool {
-		as, ok := n.(*ast.AssignStmt)
-		if !ok || len(as.Lhs) != 1 || len(as.Rhs) != 1 {
-			return true
+	// the default verdict is the negation of spec.BlockByDefault: which expressions of Allow (and
+	// of what it reaches in its package) read the setting negated, which read it as it is. What
+	// a returned variable holds is followed per path below (a named result may be assigned the
+	// default first and a decided verdict later).
+	fns := reach(f, 2)
+	isBBD := func(g *flow.Func, e ast.Expr) bool {
+		sel, ok := ast.Unparen(e).(*ast.SelectorExpr)
+		if !ok || sel.Sel.Name != "BlockByDefault" {
+			return false
 		}
-		id, ok := as.Lhs[0].(*ast.Ident)
-		if !ok {
-			return true
-		}
-		ue, ok := ast.Unparen(as.Rhs[0]).(*ast.UnaryExpr)
-		isNeg := ok && ue.Op == token.NOT
-		var inner ast.Expr = as.Rhs[0]
-		if isNeg {
-			inner = ue.X
-		}
-		if sel, ok := ast.Unparen(inner).(*ast.SelectorExpr); ok && sel.Sel.Name == "BlockByDefault" {
-			obj := f.Info.Defs[id]
-			if obj == nil {
-				obj = f.Info.Uses[id]
-			}
-			defObj = obj
-			defOK = isNeg
-		}
-		return true
-	})
-	if defObj == nil {
-		c.Undecide("R-C05-1", cons+"|default result", pos(c, f.Body), "no variable derived from spec.BlockByDefault")
-		return
+		sl := g.Info.Selections[sel]
+		return sl != nil && sl.Kind() == types.FieldVal
 	}
-	ast.Inspect(f.Body, func(n ast.Node) bool {
-		if as, ok := n.(*ast.AssignStmt); ok {
-			for _, l := range as.Lhs {
-				if id, ok := l.(*ast.Ident); ok && (f.Info.Defs[id] == defObj || f.Info.Uses[id] == defObj) {
-					ndef++
+	neg, plain := 0, 0
+	for _, g := range fns {
+		negated := map[ast.Expr]bool{}
+		ast.Inspect(g.Body, func(n ast.Node) bool {
+			if ue, ok := n.(*ast.UnaryExpr); ok && ue.Op == token.NOT && isBBD(g, ue.X) {
+				negated[ast.Unparen(ue.X)] = true
+				neg++
+			}
+			if e, ok := n.(ast.Expr); ok && isBBD(g, e) && !negated[e] {
+				if _, isParen := e.(*ast.ParenExpr); !isParen {
+					plain++
 				}
 			}
+			return true
+		})
+	}
+	if neg+plain == 0 {
+		c.Undecide("R-C05-1", cons+"|default result", pos(c, f.Body), "no value derived from spec.BlockByDefault")
+		return
+	}
+	c.Check(neg > 0 && plain == 0, "R-C05-1", cons+"|default result = !blockByDefault", pos(c, f.Body), "the default result is !spec.BlockByDefault",
+		"the default result is not the negation of blockByDefault: addresses in neither/both lists get the wrong verdict")
+	df := newMuxSrc(f, fns, "df:", nil, inlineSamePkg(f))
+	df.classify = func(e ast.Expr) flow.Val {
+		for _, g := range fns {
+			if ue, ok := e.(*ast.UnaryExpr); ok && ue.Op == token.NOT && isBBD(g, ue.X) {
+				return flow.True
+			}
+			if isBBD(g, e) {
+				return flow.False
+			}
 		}
-		return true
-	})
-	c.Check(defOK && ndef == 1, "R-C05-1", cons+"|default result = !blockByDefault", pos(c, f.Body), "defaultResult := !spec.BlockByDefault, assigned once",
-		"the default result is not the negation of blockByDefault (or is reassigned): addresses in neither/both lists get the wrong verdict")
+		return flow.Unknown
+	}
 
 	// identify parse result, lookup results (the two prefix tries are resolved by the spec list
 	// they are built from, not by their names)
@@ -186,20 +195,18 @@ func c05Allow(c *core.Ctx) {
 	aKey, bKey := f.VarKey(aID), f.VarKey(bID)
 	eqKey := f.EqKey(aID, bID)
 	errNil := f.NilKey(errIDs[0])
-	fns := reach(f, 2)
 	vfA := newMuxFlow(fns)
 	for _, id := range []*ast.Ident{aID, bID} {
 		vfA.stop[objOf(id)] = true
 	}
-	vfA.stop[defObj] = true
 	// events: which lookups have been performed and whether one failed
-	res := muxAnalyzeInl(c, f, flow.Config{NoHavoc: true,
+	res := muxAnalyzeInl(c, f, df.config(flow.Config{NoHavoc: true,
 		AfterAssume: func(st *flow.State, cond ast.Expr, outcome bool) {
 			if st.Is(errNil, flow.False) {
 				st.Set("ev:lookupFailed", flow.True)
 			}
 		},
-	})
+	}))
 	if res == nil {
 		return
 	}
@@ -217,6 +224,12 @@ func c05Allow(c *core.Ctx) {
 		if tv, has := f.Info.Types[e]; has && tv.Value != nil {
 			return tv.Value.ExactString()
 		}
+		switch df.get(st, e) {
+		case flow.True:
+			return "default"
+		case flow.False:
+			return "blockByDefault (not negated)"
+		}
 		if ue, ok := e.(*ast.UnaryExpr); ok && ue.Op == token.NOT {
 			switch value(st, ue.X, av, bv) {
 			case "true":
@@ -230,8 +243,6 @@ func c05Allow(c *core.Ctx) {
 			return func(x types.Object) bool { return x == o }
 		}
 		switch {
-		case vfA.allPaths(e, false, isVar(defObj)):
-			return "default"
 		case vfA.allPaths(e, false, isVar(objOf(aID))):
 			return boolStr(av)
 		case vfA.allPaths(e, false, isVar(objOf(bID))):
@@ -874,10 +885,93 @@ func c05New(c *core.Ctx) {
 		})
 		return pc, text
 	}
-	res := muxAnalyzeInl(c, body, flow.Config{NoHavoc: true,
+	// a helper called in operand position (`Insert(NewBasicRangerEntry(hostNet(ip)))`) is not
+	// interpreted in place by the engine: it is analysed on its own with the same hooks, entered
+	// with what the calling path knows, and what its exits have seen is carried over
+	nestedArg := map[*ast.CallExpr]bool{}
+	for _, g := range vfN.fns {
+		ast.Inspect(g.Body, func(n ast.Node) bool {
+			if call, ok := n.(*ast.CallExpr); ok {
+				for _, a := range call.Args {
+					ast.Inspect(a, func(m ast.Node) bool {
+						if c2, ok := m.(*ast.CallExpr); ok {
+							nestedArg[c2] = true
+						}
+						return true
+					})
+				}
+			}
+			return true
+		})
+	}
+	ipParsed := func(st *flow.State) bool { return st.Is(ipNil, flow.False) || st.Is("ev:ipParsed", flow.True) }
+	viewKeys := []string{"ev:fam:parsed", "ev:fam:text", "ev:rep:parsed", "ev:rep:text"}
+	maskKeys := []string{"ev:mask:32/32", "ev:mask:128/128"}
+	var conf flow.Config
+	summaries := map[string][]*flow.State{}
+	depth := 0
+	summarise := func(st *flow.State, g *flow.Func) {
+		key := g.Name + "|" + sprintf("%v", ipParsed(st))
+		for _, k := range append(append([]string{"ev:cidrTried"}, viewKeys...), maskKeys...) {
+			key += sprintf("|%v", st.Get(k))
+		}
+		outs, done := summaries[key]
+		if !done {
+			if depth >= 2 {
+				return
+			}
+			depth++
+			sub := conf
+			parsed := ipParsed(st)
+			carry := map[string]flow.Val{}
+			for _, k := range append(append([]string{"ev:cidrTried"}, viewKeys...), maskKeys...) {
+				carry[k] = st.Get(k)
+			}
+			sub.Init = func(s0 *flow.State) {
+				if parsed {
+					s0.Set("ev:ipParsed", flow.True)
+				}
+				for k, v := range carry {
+					s0.Set(k, v)
+				}
+			}
+			if r := muxAnalyzeInl(c, g, sub); r != nil {
+				for _, ex := range r.Exits {
+					if ex.Kind == flow.ExitReturn {
+						outs = append(outs, ex.State)
+					}
+				}
+			}
+			depth--
+			summaries[key] = outs
+		}
+		if len(outs) == 0 {
+			return
+		}
+		// the mask is one of those chosen on the helper's paths (the rule asks which masks can
+		// reach the insert); the two views of the entry have to be the same on all of them
+		for _, k := range maskKeys {
+			v := flow.Unknown
+			for _, o := range outs {
+				if o.Is(k, flow.True) {
+					v = flow.True
+				}
+			}
+			st.Set(k, v)
+		}
+		for _, k := range viewKeys {
+			for _, o := range outs[1:] {
+				if o.Get(k) != outs[0].Get(k) {
+					st.Set("ev:viewUnclear", flow.True)
+				}
+			}
+			st.Set(k, outs[0].Get(k))
+		}
+	}
+	conf = flow.Config{NoHavoc: true,
 		AfterAssume: func(st *flow.State, cond ast.Expr, outcome bool) {
 			// what the IPv4 / IPv6 decision of a single address looks at
-			if !st.Is(ipNil, flow.False) {
+			if !ipParsed(st) {
 				return
 			}
 			pc, text := mentions(cond, 0)
@@ -898,6 +992,11 @@ func c05New(c *core.Ctx) {
 			}
 		},
 		OnCall: func(st *flow.State, call *ast.CallExpr, callee types.Object, deferred bool) {
+			if fo, ok := callee.(*types.Func); ok && nestedArg[call] && !deferred {
+				if g := vfN.fnOf[fo.Origin()]; g != nil {
+					summarise(st, g)
+				}
+			}
 			if call == parseIP {
 				// a new entry is being looked at
 				st.Set("ev:cidrTried", flow.Unknown)
@@ -910,7 +1009,7 @@ func c05New(c *core.Ctx) {
 				return
 			}
 			st.Set("ev:cidrTried", flow.True)
-			if !st.Is(ipNil, flow.False) {
+			if !ipParsed(st) {
 				return
 			}
 			// a single address sent through ParseCIDR: what the prefix length was appended to
@@ -961,7 +1060,7 @@ func c05New(c *core.Ctx) {
 				if tv, ok := f.Info.Types[cl]; !ok || tv.Type == nil || tv.Type.String() != "net.IPNet" {
 					return true
 				}
-				if st.Is(ipNil, flow.False) {
+				if ipParsed(st) {
 					for _, el := range cl.Elts {
 						if kv, ok := el.(*ast.KeyValueExpr); ok {
 							if k, ok := kv.Key.(*ast.Ident); ok && k.Name == "IP" {
@@ -1011,7 +1110,8 @@ func c05New(c *core.Ctx) {
 				}
 			}
 		},
-	})
+	}
+	res := muxAnalyzeInl(c, body, conf)
 	if res == nil {
 		return
 	}
@@ -1066,6 +1166,14 @@ func c05New(c *core.Ctx) {
 				mixed, whyMixed = st, "the address family of a single-address entry is decided from the parsed address (ip.To4()) but the prefix length is appended to the entry's TEXT: an IPv4-mapped address written in IPv6 form (::ffff:a.b.c.d) gets the IPv4 length on an IPv6 text and covers ::/32 instead of the one address"
 			case st.Is("ev:fam:text", flow.True) && st.Is("ev:rep:parsed", flow.True) && !st.Is("ev:rep:text", flow.True):
 				mixed, whyMixed = st, "the address family of a single-address entry is decided from the entry's text but the mask is attached to the parsed address: an IPv4-mapped address written in IPv6 form (::ffff:a.b.c.d) gets the 128-bit mask on an address the trie keeps as IPv4"
+			}
+		}
+	}
+	for _, ins := range inserts {
+		for _, st := range res.At[ins] {
+			if mixed == nil && st.Is(ipNil, flow.False) && st.Is("ev:viewUnclear", flow.True) {
+				c.Undecide("R-C05-5", cons+"|address family decided on the value the prefix is attached to", pos(c, ins), "a helper called in operand position looks at the entry in different ways on its paths")
+				return
 			}
 		}
 	}
